@@ -38,7 +38,7 @@ CHECKS = {
                 note="Selector enumeration (29 conditions x 512 selections), not symbolic strings; the encoders are the format definitions."),
     "C08": dict(engine=E2, cat="exploration", sec="6 C08",
                 technique="CrossHair (z3) drives symbolic selectors over compositions; each selected composition is spelled as a name, parsed by the real Species (untraced) and compared field by field with the composition it was built from; all paths of every condition exhausted",
-                text="All ordered pairs and triples of clash-prone symbols (H/He, C/Cl/Ca, S/Si, N/Na/Ni, F/Fe...), every default element with counts and 6 charge states, surface prefixes '#'/'G', ortho/para labels, the UCLCHEM upper-case list with replacement (renamed names), electrons, grains (default and custom symbols with group numbers in every charge state), H2*, c-/l- isomers, surface prefixes followed by a grain-population number: element counts, charge, phase, gas counterpart, mass number and is_atom are exactly those of the composition; names with foreign characters are rejected.",
+                text="All ordered pairs and triples of clash-prone symbols (H/He, C/Cl/Ca, S/Si, N/Na/Ni, F/Fe...), every default element with counts and 6 charge states, surface prefixes '#'/'G', ortho/para labels, the UCLCHEM upper-case list with replacement (renamed names), electrons, grains (default and custom symbols with group numbers in every charge state), H2*, c-/l- isomers, surface prefixes followed by a grain-population number, pseudo elements promoted to elements with add_known_elements: element counts, charge, phase, gas counterpart, mass number and is_atom are exactly those of the composition; names with foreign characters are rejected.",
                 note="Selector enumeration by the solver, not symbolic strings (CrossHair's regex model is unreliable on this tokenizer; stated in DESIGN.md). Mass numbers from an independent table."),
     "C09": dict(engine=E2, cat="exploration", sec="6 C09",
                 technique="CrossHair-selected name pairs on the real Species.__eq__/__hash__/alias + per-project z3 Distinct/range queries over the index tables read back from every generated artefact (macros through the real preprocessor, Python constants via ast, TOML summary, Enzo patch header)",
@@ -46,11 +46,11 @@ CHECKS = {
                 note="Per-project obligations are ground facts (stated as such); names and identity classes are a fixed table."),
     "C14": dict(engine=E2, cat="exploration", sec="6 C14",
                 technique="CrossHair symbolic execution (z3) of the real Network add/remove/allowed-species/source-sink logic on stub species with symbolic integer identities (all paths), plus solver-selected operation sequences on real reactions compared with an explicit model; the extend command is driven for real and compared with the same model",
-                text="From every pre-state with <=2 held reactions one operation of each of 11 kinds keeps species = species of held reactions + required, reactants/products/sources/sinks recomputed, held = added and allowed, none lost; all histories of 2 operations (3 in thorough); setting the allowed list later equals constructing with it; on symbolic stub species the same invariants hold for every aliasing pattern of labels; `naunet extend` keeps exactly the reactions the model predicts.",
+                text="From every pre-state with <=2 held reactions, 3 allowed lists and 5 required-species lists (also required species outside the allowed list) one operation of each of 11 kinds keeps species = species of held reactions + required, reactants/products/sources/sinks recomputed, held = added and allowed, none lost; all histories of 2 operations (3 in thorough); setting the allowed list later equals constructing with it; on symbolic stub species the same invariants hold for every aliasing pattern of labels; `naunet extend` keeps exactly the reactions the model predicts.",
                 note="Bounded pools and history lengths; a one-step argument from arbitrary small pre-states stands in for longer histories only as far as the model state (held, skipped, allowed, required) is the whole state."),
     "C15": dict(engine=E2, cat="exploration", sec="6 C15",
                 technique="CrossHair symbolic execution (z3) of the real Network.find_duplicate_reaction / remove_reaction on stub reactions with symbolic integer identities (all paths), plus solver-enumerated selections of real Reaction objects for every comparison mode; counterexamples replayed natively",
-                text="For every list of <=4 reactions (as equality patterns of symbolic labels) the duplicate indices, duplicate list and first-member list equal the specification, and removing the reported reactions leaves one per class; for real reactions (permutations, electron spellings, differing windows/types) every selection of <=3 from a pool of 10 agrees with an independent equivalence per mode; __eq__/__hash__ consistency for all pairs.",
+                text="For every list of <=4 reactions (as equality patterns of symbolic labels) the duplicate indices, duplicate list and first-member list equal the specification, and removing the reported reactions leaves one per class; for real reactions (permutations, electron spellings, differing windows/types) every selection of <=3 from a pool of 12 agrees with an independent equivalence per mode, also when the same reaction was read by different format classes; __eq__/__hash__ consistency for all pairs.",
                 note="Bounded list lengths and pools; CrossHair's own soundness; string modes compare printed names by documentation."),
     "C16": dict(engine=E1, cat="translation_validation", sec="6 C16",
                 technique="symbolic execution of the compiled InitRenorm / RenormAbundance / GetElementAbund / GetHNuclei + SMT (non-linear real arithmetic): with the linear solve as the constraint A(ab) r = b, element totals after renormalisation equal reference ratio x hydrogen nuclei for all ab > 0",
@@ -74,7 +74,7 @@ CHECKS = {
                 note="Modifier expressions are arithmetic over parameters; one 6-reaction KIDA network and one unindexed API network; all parameters, abundances and rate values symbolic."),
     "C20": dict(engine=E1, cat="translation_validation", sec="6 C20",
                 technique="differential symbolic execution of the project rendered by `naunet init`+`naunet render` (real CLI, real TOML) against the project rendered through Network(...) for the requested description: SMT equivalence of every rate coefficient and derivative, ground equality of macro tables and TOML fields; CrossHair symbolic execution of InitCommand.handle on symbolic option strings",
-                text="For the bundled examples (minimal, primordial, empty; deuterium and cloud in thorough) and option-value classes (blanks around separators in lists and key=value tables, extra species, modifiers, binding energies and yields, non-default symbols, self-shielding tables) the configuration file records what was requested and the command-line rendering is equivalent for all inputs to the API rendering; Network.export for dense / sparse / odeint records the requested solver selection and re-renders to the same back-end with equal right-hand sides.",
+                text="For the bundled examples (minimal, primordial, empty; deuterium and cloud in thorough) and option-value classes (blanks around separators in lists and key=value tables, extra species, modifiers, binding energies and yields, non-default symbols, self-shielding tables) the configuration file records what was requested and the command-line rendering is equivalent for all inputs to the API rendering; Network.export for dense / sparse / odeint records the requested solver selection and re-renders to the same back-end with equal right-hand sides; the command printed by `naunet example --dry` carries the example module's own tables value by value.",
                 note="End-to-end cases are enumerated option classes; the option parser itself is additionally executed by CrossHair on symbolic strings of <=4 characters; prompts are not exercised; `ism` needs an external file."),
     "C18": dict(engine=E1, cat="translation_validation", sec="6 C18",
                 technique="ground field-wise comparison of two native write/read cycles + differential symbolic execution: compiled EvalRates/Fex of the direct rendering vs. Network.export re-rendered by `naunet render` in the exported directory, SMT equivalence for all parameter values, native replay of every sat answer",
